@@ -23,6 +23,15 @@ class Timeout(Exception):
     pass
 
 
+def errctx(out, n=40):
+    """the part of a TLC log that says what went wrong (the lines around the first "Error:"), else its tail"""
+    lines = out.splitlines()
+    for k, l in enumerate(lines):
+        if "Error:" in l or "Exception" in l:
+            return "\n".join(lines[max(0, k - 3):k + n])
+    return "\n".join(lines[-n:])
+
+
 def _alarm(signum, frame):
     raise Timeout()
 
@@ -137,11 +146,11 @@ class Ctx:
                 break
             m = re.findall(r"/\\ (l|ci) = (\d+)", r.out)
             if "The error occurred when TLC was evaluating" not in r.out or not m or not lines:
-                raise Machinery("judge %s failed:\n%s" % (module, "\n".join(r.out.splitlines()[-40:])))
+                raise Machinery("judge %s failed:\n%s" % (module, errctx(r.out)))
             name, val = m[-1][0], int(m[-1][1])
             k = val if name == "l" else val - 1                      # 0-based index of the observation TLC was evaluating
             if not (0 <= k < len(lines)):
-                raise Machinery("judge %s failed:\n%s" % (module, "\n".join(r.out.splitlines()[-40:])))
+                raise Machinery("judge %s failed:\n%s" % (module, errctx(r.out)))
             rejected.append((json.loads(lines[k])["cid"], "observation-cannot-be-evaluated"))
             del lines[k]
             cur = obs_path + ".rest"
